@@ -163,6 +163,13 @@ func (c *Ctx) Finish(classify func(Finding) string) int {
 		violations++
 		path := filepath.Join(replayDir, fmt.Sprintf("%s-%d.json", c.ID, i+1))
 		art := map[string]any{"property": c.ID, "scenario": f.Scenario, "spec": f.Spec, "detail": f.Detail, "line": f.Line, "seed": c.Seed, "tier": c.Tier}
+		if f.TraceFile != "" {
+			// keep the rejected execution next to the artefact: --replay re-validates exactly it
+			tp := filepath.Join(replayDir, fmt.Sprintf("%s-%d.%s.ndjson", c.ID, i+1, f.Spec))
+			if copyFile(f.TraceFile, tp) == nil {
+				art["trace"] = tp
+			}
+		}
 		b, _ := json.MarshalIndent(art, "", " ")
 		_ = os.WriteFile(path, b, 0o644)
 		fmt.Printf("VIOLATION property=%s replay=%s\n", c.ID, path)
@@ -238,6 +245,43 @@ func DistinctNontrivial(per map[string]map[string]int, pred func(map[string]int)
 		}
 	}
 	return n
+}
+
+// ReplayTrace re-validates the recorded execution kept with a replay artefact (if any).
+// Returns handled = false when the artefact carries no trace (the scenario is then re-executed).
+func (c *Ctx) ReplayTrace(path string) (handled bool) {
+	var art struct {
+		Scenario Scenario `json:"scenario"`
+		Spec     string   `json:"spec"`
+		Trace    string   `json:"trace"`
+	}
+	raw, err := os.ReadFile(path)
+	if err != nil || json.Unmarshal(raw, &art) != nil || art.Trace == "" {
+		return false
+	}
+	if _, err := os.Stat(art.Trace); err != nil {
+		return false
+	}
+	name := "trace.ndjson"
+	if art.Spec == "EvalFormat" {
+		name = "files.ndjson"
+	}
+	r, err := RunTLC(TLCJob{Module: art.Spec, Config: art.Spec + ".cfg", Files: map[string]string{name: art.Trace}, Timeout: 15 * time.Minute, HeapMB: 3000})
+	if err != nil {
+		c.Infra = append(c.Infra, err.Error())
+		return true
+	}
+	c.mcStates, c.mcTrans, c.traces = r.Distinct+1, r.Generated+1, 1
+	c.Cov["evaluations"], c.Cov["distinct_nontrivial"] = 2, 2
+	c.AddSample(map[string]any{"replayed_trace": art.Trace, "scenario": art.Scenario.Name})
+	if !r.OK {
+		if r.Rejected == 0 {
+			c.Infra = append(c.Infra, "replay did not finish: "+Tail(r.Output, 10))
+		} else {
+			c.Findings = append(c.Findings, Finding{Scenario: art.Scenario, Spec: art.Spec, Detail: r.Mismatch, Line: r.Rejected, TraceFile: art.Trace})
+		}
+	}
+	return true
 }
 
 // LoadReplay reads a replay artefact.
